@@ -112,6 +112,201 @@ def sign_on(e, box):
 
 
 # ------------------------------------------------------------------------------------------------ F8
+class _Return(Exception):
+    def __init__(self, v):
+        Exception.__init__(self)
+        self.v = v
+
+
+def ghost_state(u, fn, axis, depth=0, argvals=None):
+    """Symbolic ghost state {('primitives', k): expr, ('primitive_gradients', k): [3 exprs]} returned by a ghost-state
+    function of ReflectiveHydroBoundary for a concrete interface axis; the wall cell's primitives are w0..w4 and its
+    gradients g<k>_<c>.  Index arithmetic is concrete, loops with literal bounds are unrolled, branches on indices taken;
+    helper functions that take the wall state (of this class or a base class) are evaluated with their arguments bound."""
+    if depth > 4:
+        raise AnalysisBroken("%s: recursion" % fn["full"])
+    env = {}
+    if argvals is not None:
+        for p_, v_ in zip(fn["params"], argvals):
+            env[p_["id"]] = v_
+    else:
+        pi = [p for p in fn["params"] if "HydroVariables" not in (p.get("t") or "") and
+              "CoordinateVector" not in (p.get("t") or "")]
+        left = [p for p in fn["params"] if "HydroVariables" in (p.get("t") or "")]
+        if not pi or len(left) != 1:
+            raise AnalysisBroken("%s: axis / left state parameters not found" % fn["full"])
+        env = {pi[0]["id"]: axis, left[0]["id"]: "L"}
+        for p in pi[1:]:
+            env[p["id"]] = 1          # orientation: not used for the mirror image
+
+    def L(kind, k):
+        if kind == "primitives":
+            return sp.Symbol("w%d" % k)
+        return [sp.Symbol("g%d_%d" % (k, c)) for c in range(3)]
+
+    def ival(e):
+        e = C.strip_casts(e)
+        if e.get("k") == "Int":
+            return int(e["v"])
+        if e.get("k") == "Ref" and isinstance(env.get(e.get("id")), int):
+            return env[e["id"]]
+        if e.get("k") == "Bin" and e.get("op") in ("+", "-", "*"):
+            a, b = ival(e["a"]), ival(e["b"])
+            return a + b if e["op"] == "+" else (a - b if e["op"] == "-" else a * b)
+        if e.get("k") == "Bin" and e.get("op") in ("==", "!=", "<", ">", "<=", ">="):
+            a, b = ival(e["a"]), ival(e["b"])
+            return {"==": a == b, "!=": a != b, "<": a < b, ">": a > b, "<=": a <= b, ">=": a >= b}[e["op"]]
+        if e.get("k") == "Bin" and e.get("op") in ("&&", "||"):
+            a, b = ival(e["a"]), ival(e["b"])
+            return (a and b) if e["op"] == "&&" else (a or b)
+        if e.get("k") == "Un" and e.get("op") == "!":
+            return not ival(e["x"])
+        raise AnalysisBroken("%s: `%s` is not a concrete index expression" % (fn["full"], C.pretty(e)))
+
+    def lval(e):
+        """('state', id, kind, k, comp) | ('vec', id, comp)"""
+        e = C.strip_casts(e)
+        comp = None
+        if e.get("k") == "Call" and e.get("op") == "[]" and e.get("obj") is not None:
+            comp = ival(e["a"][0])
+            e = C.strip_casts(e["obj"])
+        if e.get("k") == "Call" and e.get("n") in ("primitives", "primitive_gradients") and e.get("obj") is not None:
+            o = C.strip_casts(e["obj"])
+            if o.get("k") == "Ref" and "id" in o:
+                return ("state", o["id"], e["n"], ival(e["a"][0]), comp)
+        if e.get("k") == "Ref" and isinstance(env.get(e.get("id")), list):
+            return ("vec", e["id"], comp)
+        return None
+
+    def val(e):
+        e0 = C.strip_casts(e)
+        while e0.get("k") == "Ctor" and len(e0.get("a", [])) == 1:
+            e0 = C.strip_casts(e0["a"][0])
+        if e0.get("k") == "Un" and e0.get("op") == "-":
+            v = val(e0["x"])
+            return [-x for x in v] if isinstance(v, list) else -v
+        if e0.get("k") == "Cond":
+            return val(e0["a"]) if ival(e0["c"]) else val(e0["b"])
+        lv = lval(e0)
+        if lv is not None and lv[0] == "vec":
+            v = env[lv[1]]
+            return list(v) if lv[2] is None else v[lv[2]]
+        if lv is not None:
+            _, sid, kind, k, comp = lv
+            st = env.get(sid)
+            if st == "L":
+                v = L(kind, k)
+            elif isinstance(st, dict):
+                v = st.get((kind, k))
+                if v is None:
+                    raise AnalysisBroken("%s: %s(%d) of the ghost state is read before it is set" % (fn["full"], kind, k))
+            else:
+                raise AnalysisBroken("%s: `%s`" % (fn["full"], C.pretty(e0)))
+            if comp is not None:
+                return v[comp]
+            return list(v) if isinstance(v, list) else v
+        if e0.get("k") == "Ref" and isinstance(env.get(e0.get("id")), dict):
+            return {k: (list(v) if isinstance(v, list) else v) for k, v in env[e0["id"]].items()}
+        if e0.get("k") == "Call" and e0.get("fn") and not e0.get("op"):
+            cands = [m for m in u.decls if m["kind"] == "function" and m.get("body") and not m.get("dependent") and
+                     m["full"].split("(")[0] == e0["fn"] and len(m["params"]) == len(e0["a"]) and
+                     "HydroVariables" in (m.get("ret") or m.get("t") or "HydroVariables")]
+            if cands:
+                av = []
+                for a_, p_ in zip(e0["a"], cands[0]["params"]):
+                    t_ = p_.get("t") or ""
+                    a0 = C.strip_casts(a_)
+                    if "HydroVariables" in t_:
+                        av.append("L" if env.get(a0.get("id")) == "L" else val(a_))
+                    elif "CoordinateVector" in t_:
+                        av.append(None)
+                    else:
+                        try:
+                            av.append(ival(a_))
+                        except AnalysisBroken:
+                            av.append(None)
+                return ghost_state(u, cands[0], axis, depth + 1, av)
+        raise AnalysisBroken("%s: value `%s` not understood" % (fn["full"], C.pretty(e0)[:80]))
+
+    def assign(tgt, v):
+        lv = lval(tgt)
+        if lv is None:
+            t0 = C.strip_casts(tgt)
+            if t0.get("k") == "Ref" and isinstance(env.get(t0.get("id")), dict) and isinstance(v, dict):
+                env[t0["id"]] = v
+                return
+            raise AnalysisBroken("%s: assignment to `%s`" % (fn["full"], C.pretty(tgt)))
+        if lv[0] == "vec":
+            if lv[2] is None:
+                env[lv[1]] = list(v)
+            else:
+                env[lv[1]][lv[2]] = v
+            return
+        _, sid, kind, k, comp = lv
+        st = env.get(sid)
+        if not isinstance(st, dict):
+            raise AnalysisBroken("%s: write to `%s`" % (fn["full"], C.pretty(tgt)))
+        if comp is None:
+            st[(kind, k)] = list(v) if isinstance(v, list) else v
+        else:
+            if (kind, k) not in st:
+                raise AnalysisBroken("%s: component of an unset gradient is written" % fn["full"])
+            st[(kind, k)][comp] = v
+
+    def run(s):
+        if s is None:
+            return
+        k = s.get("k")
+        if k == "Block":
+            for x in s["s"]:
+                run(x)
+        elif k == "Decl":
+            for d in s["d"]:
+                t = d.get("t") or ""
+                if "HydroVariables" in t:
+                    env[d["id"]] = val(d["init"]) if d.get("init") is not None and \
+                        C.strip_casts(d["init"]).get("k") != "Ctor" or (d.get("init") is not None and
+                                                                        C.strip_casts(d["init"]).get("a")) else {}
+                    if not isinstance(env[d["id"]], dict):
+                        raise AnalysisBroken("%s: initialiser of %s" % (fn["full"], d["n"]))
+                elif "CoordinateVector" in t and d.get("init") is not None:
+                    v = val(d["init"])
+                    env[d["id"]] = list(v)
+                elif d.get("init") is not None and any(x in t for x in ("int", "long", "char", "short", "size_t")):
+                    env[d["id"]] = ival(d["init"])
+        elif k == "For":
+            d = s["init"]["d"][0] if s.get("init") and s["init"].get("k") == "Decl" else None
+            c = C.strip_casts(s["c"]) if s.get("c") else None
+            if d is None or c is None or c.get("op") not in ("<", "<="):
+                raise AnalysisBroken("%s: loop form" % fn["full"])
+            hi = ival(c["b"]) + (1 if c["op"] == "<=" else 0)
+            for j in range(ival(d["init"]), hi):
+                env[d["id"]] = j
+                run(s["body"])
+        elif k == "If":
+            if ival(s["c"]):
+                run(s["th"])
+            else:
+                run(s.get("el"))
+        elif k == "Bin" and s.get("op") == "=":
+            assign(s["a"], val(s["b"]))
+        elif k == "Call" and s.get("op") == "=" and s.get("obj") is not None:
+            assign(s["obj"], val(s["a"][0]))
+        elif k == "Return":
+            raise _Return(val(s["x"]))
+        elif k == "Null":
+            return
+        else:
+            raise AnalysisBroken("%s: statement at line %s" % (fn["full"], s.get("l")))
+    try:
+        run(fn["body"])
+    except _Return as r:
+        if not isinstance(r.v, dict):
+            raise AnalysisBroken("%s: does not return a state" % fn["full"])
+        return r.v
+    raise AnalysisBroken("%s: no return" % fn["full"])
+
+
 def rule_F8(chk, u):
     fns = [m for m in u.methods_of("ReflectiveHydroBoundary") if m["name"] in
            ("get_right_state_flux_variables", "get_right_state_gradient_variables") and m.get("body")]
@@ -120,96 +315,11 @@ def rule_F8(chk, u):
     n = 0
     for fn in sorted(fns, key=lambda f: f["name"]):
         chk.analysed(function=fn["full"])
-        pi = [p for p in fn["params"] if p["n"] == "i" or "int_fast8_t" in (p.get("t") or "")][:1]
-        if not pi:
-            raise AnalysisBroken("%s: axis parameter not found" % fn["full"])
-        left = [p for p in fn["params"] if "HydroVariables" in (p.get("t") or "")]
-        if len(left) != 1:
-            raise AnalysisBroken("%s: left state parameter not found" % fn["full"])
         for axis in (0, 1, 2):
-            st = {}
-            ints = {pi[0]["id"]: axis}
-
-            def ival(e):
-                e = C.strip_casts(e)
-                if e.get("k") == "Int":
-                    return int(e["v"])
-                if e.get("k") == "Ref" and e.get("id") in ints:
-                    return ints[e["id"]]
-                if e.get("k") == "Bin" and e.get("op") in ("+", "-", "*"):
-                    a, b = ival(e["a"]), ival(e["b"])
-                    return a + b if e["op"] == "+" else (a - b if e["op"] == "-" else a * b)
-                raise AnalysisBroken("%s: index `%s` is not concrete" % (fn["full"], C.pretty(e)))
-
-            def slot(e):
-                """(state 'L'|'R', kind, k, comp) of an lvalue/rvalue primitives(k) / primitive_gradients(k)[c]"""
-                e = C.strip_casts(e)
-                comp = None
-                if e.get("k") == "Call" and e.get("op") == "[]" and e.get("obj") is not None:
-                    comp = ival(e["a"][0])
-                    e = C.strip_casts(e["obj"])
-                if e.get("k") == "Call" and e.get("n") in ("primitives", "primitive_gradients") and e.get("obj") is not None:
-                    o = C.strip_casts(e["obj"])
-                    side = "L" if (o.get("k") == "Ref" and o.get("id") == left[0]["id"]) else "R"
-                    return side, e["n"], ival(e["a"][0]), comp
-                return None
-
-            def val(e):
-                e0 = C.strip_casts(e)
-                if e0.get("k") == "Un" and e0.get("op") == "-":
-                    v = val(e0["x"])
-                    return None if v is None else _neg(v)
-                s = slot(e0)
-                if s is None:
-                    raise AnalysisBroken("%s: value `%s` not understood" % (fn["full"], C.pretty(e0)))
-                if s[0] == "L":
-                    if s[1] == "primitive_gradients" and s[3] is None:
-                        return ("vec", [sp.Symbol("g%d_%d" % (s[2], c)) for c in range(3)])
-                    return sp.Symbol("w%d" % s[2]) if s[1] == "primitives" else sp.Symbol("g%d_%d" % (s[2], s[3]))
-                if s[1] == "primitive_gradients" and s[3] is not None:
-                    whole = st.get(("R", s[1], s[2], None))
-                    if (("R", s[1], s[2], s[3]) not in st) and whole is not None:
-                        return whole[1][s[3]]
-                return st.get(("R",) + s[1:])
-
-            def _neg(v):
-                return ("vec", [-x for x in v[1]]) if isinstance(v, tuple) else -v
-
-            def run(s):
-                k = s.get("k")
-                if k == "Block":
-                    for x in s["s"]:
-                        run(x)
-                elif k == "For":
-                    d = s["init"]["d"][0] if s.get("init") and s["init"].get("k") == "Decl" else None
-                    c = C.strip_casts(s["c"]) if s.get("c") else None
-                    if d is None or c is None or c.get("op") != "<":
-                        raise AnalysisBroken("%s: loop form" % fn["full"])
-                    for j in range(ival(d["init"]), ival(c["b"])):
-                        ints[d["id"]] = j
-                        run(s["body"])
-                elif k == "Bin" and s.get("op") == "=":
-                    t = slot(s["a"])
-                    if t is None or t[0] != "R":
-                        raise AnalysisBroken("%s: assignment `%s`" % (fn["full"], C.pretty(s)))
-                    v = val(s["b"])
-                    if t[1] == "primitive_gradients" and t[3] is not None and ("R",) + t[1:3] + (None,) in st:
-                        whole = st[("R",) + t[1:3] + (None,)]
-                        comps = list(whole[1])
-                        comps[t[3]] = v
-                        st[("R",) + t[1:3] + (None,)] = ("vec", comps)
-                    else:
-                        st[("R",) + t[1:]] = v
-                elif k == "Call" and s.get("op") == "=" and s.get("obj") is not None:
-                    run({"k": "Bin", "op": "=", "a": s["obj"], "b": s["a"][0], "l": s.get("l")})
-                elif k in ("Decl", "Return", "Null"):
-                    return
-                else:
-                    raise AnalysisBroken("%s: statement at line %s" % (fn["full"], s.get("l")))
-            run(fn["body"])
+            st = ghost_state(u, fn, axis)
             for kq in range(5):
                 want = -sp.Symbol("w%d" % kq) if kq == 1 + axis else sp.Symbol("w%d" % kq)
-                got = st.get(("R", "primitives", kq, None))
+                got = st.get(("primitives", kq))
                 n += 1
                 chk.require(got is not None and sp.simplify(got - want) == 0, "F8",
                             "%s, axis %d: ghost primitive %d is the mirror image" % (fn["name"], axis, kq), where(fn),
@@ -218,18 +328,17 @@ def rule_F8(chk, u):
                             construct="ghost primitive %d axis %d" % (kq, axis))
             if fn["name"] == "get_right_state_flux_variables":
                 for kq in range(5):
-                    whole = st.get(("R", "primitive_gradients", kq, None))
+                    whole = st.get(("primitive_gradients", kq))
                     if whole is None:
                         raise AnalysisBroken("%s: gradient %d of the ghost is not set" % (fn["full"], kq))
-                    for c in (axis,):
-                        # (components across the axis are not used by the face reconstruction along the axis)
-                        sgn = 1 if kq == 1 + axis else -1
-                        want = sgn * sp.Symbol("g%d_%d" % (kq, c))
-                        n += 1
-                        chk.require(sp.simplify(whole[1][c] - want) == 0, "F8",
-                                    "%s, axis %d: ghost gradient (%d)[%d] is the mirror image" % (fn["name"], axis, kq, c),
-                                    where(fn), "ghost gradient = %s, mirror image = %s" % (whole[1][c], want),
-                                    function=fn["full"], construct="ghost gradient %d axis %d" % (kq, axis))
+                    # (components across the axis are not used by the face reconstruction along the axis)
+                    sgn = 1 if kq == 1 + axis else -1
+                    want = sgn * sp.Symbol("g%d_%d" % (kq, axis))
+                    n += 1
+                    chk.require(sp.simplify(whole[axis] - want) == 0, "F8",
+                                "%s, axis %d: ghost gradient (%d)[%d] is the mirror image" % (fn["name"], axis, kq, axis),
+                                where(fn), "ghost gradient = %s, mirror image = %s" % (whole[axis], want),
+                                function=fn["full"], construct="ghost gradient %d axis %d" % (kq, axis))
     return n
 
 
